@@ -1,0 +1,27 @@
+//go:build verif
+
+// Contracts of the gossip synchronisation functions (digest, delta, liveness,
+// expiry) for the deductive verifier in /verif (vcgo). Comment-only.
+
+package gossip
+
+// ---- ApplyDigest (C11, C02, C03, C13, C14) -----------------------------------
+
+// A node as ApplyDigest creates it: version 0, no entries, no flags.
+//@ pure blankNode(n *nodeState, id string, addr string) bool = n.ID == id && n.Addr == addr && n.Version == 0 && !n.Left && !n.Unreachable && n.Expiry.IsZero()
+//@    && n.Entries != nil && (forall k string :: !(k in n.Entries))
+
+//@ contract (*clusterState).ApplyDigest
+//@   serves C11 C02 C03 C13 C14 C20
+//@   modifies entries(s.nodes)
+//@   ensures[known-kept] forall id string :: old(id in s.nodes) ==> id in s.nodes && s.nodes[id] == old(s.nodes[id])
+//@   ensures[left-not-learned] forall id string :: id in s.nodes && !old(id in s.nodes) ==> (exists j int :: 0 <= j && j < len(digest) && digest[j].ID == id && !digest[j].Left && blankNode(s.nodes[id], id, digest[j].Addr))
+//@   ensures[discovered] forall j int :: 0 <= j && j < len(digest) && !digest[j].Left ==> digest[j].ID in s.nodes
+//@   loop 1 frame entries(s.nodes)
+//@   loop 1 invariant[range] rangeindex < len(digest)
+//@   loop 1 invariant[inv] csInv(s) && wInv(s)
+//@   loop 1 invariant[map] s.nodes == old(s.nodes)
+//@   loop 1 invariant[known-kept] forall id string :: old(id in s.nodes) ==> id in s.nodes && s.nodes[id] == old(s.nodes[id])
+//@   loop 1 invariant[left-not-learned] forall id string :: id in s.nodes && !old(id in s.nodes) ==> (exists j int :: 0 <= j && j <= rangeindex && digest[j].ID == id && !digest[j].Left && blankNode(s.nodes[id], id, digest[j].Addr))
+//@   loop 1 invariant[discovered] forall j int :: 0 <= j && j <= rangeindex && !digest[j].Left ==> digest[j].ID in s.nodes
+//@   loop 1 invariant[old-objects] forall id string :: old(id in s.nodes) ==> !fresh(old(s.nodes[id]))
